@@ -616,7 +616,7 @@ def tyx(t, cps):
 
 
 def sexpr(text, tps, cps):
-    t = text.strip()
+    t = text.strip().rstrip(',').strip()
     if t.startswith('&'):
         t = t[1:].strip()
     t = strip_path(t)
@@ -695,7 +695,7 @@ def slice_of(inner, tps, cps, many, rep):
 
 
 def xdata(text, tps, cps):
-    t = strip_path(text)
+    t = strip_path(text.strip().rstrip(',').strip())
     m = re.match(r'^Data::(\w+)\s*(.*)$', t, re.S)
     if not m:
         raise Untranslatable("data expression `%s`" % t[:60])
